@@ -13,15 +13,15 @@ TEXT = {
  "C12": ("Seeded requests over the matrix relation x {c*x+k, c*(x-y)+k} x variable order x sign for IDL and RDL in random consistent states, judged like C11; bounds/distance/equates on expressions compared with the same function of the variable-level distances.", "3.1, 4 (C12)"),
  "C13": ("Seeded construction orders of eq/conj/disj/at-most-one/exactly-one (duplicates, complements, root-decided arguments, cache hits, pairwise and product encodings) followed by exhaustive sweeps of the argument space through assume: the returned literal must be equivalent (eq/conj/disj) resp. force the cardinality and exclude nothing (amo/exo).", "3.1, 4 (C13)"),
  "C01": ("Seeded search over generated RIDDLE problems (constraints, objects, goals/facts with rules, state variables, resources) delivered as read()/solve()/pop-to-root histories under K seeded heap layouts and (thorough) the h_max/h_add x CHECK_INCONSISTENCIES x Debug/Release builds; every reported solution is evaluated with exact rational+epsilon arithmetic against the harness's own AST (top-level constraints, formula arguments, rule bodies of active goals with their sub-goals taken from the causal graph).", "3.2, 4 (C01)"),
- "C02": ("Same histories; every negative verdict (solve()==false, unsolvable/inconsistency exception from read()) on the constraint-only fragment is cross-examined with z3 on the harness's AST (a model is a witness that the verdict is wrong); most problems are planted around a hidden assignment so that they are satisfiable by a small margin.", "3.2, 4 (C02)"),
+ "C02": ("Same histories; every negative verdict (solve()==false, unsolvable/inconsistency exception from read()) on the constraint-only fragment is cross-examined with z3 on the harness's AST (a model is a witness that the verdict is wrong); most problems are planted around a hidden assignment so that they are satisfiable by a small margin. Every history's problem is read again by fresh solvers in equivalent formulations (constraints reordered, tautology, dead disjunct, statements reversed, a fact stated twice) and, when solved, without one of its constraints: verdicts must agree / a relaxation stays solvable (a positive verdict counts only when its solution checks). One problem in four carries a block that is solvable by construction through unification only and is also handed to a solver alone (planted plan).", "3.2, 4 (C02), 10.1, 10.8, 10.11"),
  "C03": ("Same histories, causal profile: from the listener-reported causal graph every atom whose flaw is active must be active (goal: activation applied, sub-goals in the plan) or unified with an active atom of the same predicate with equal arguments; the support graph (sub-goal + unification edges) must be acyclic.", "3.2, 4 (C03)"),
  "C04": ("Same histories, state-variable profile (fixed and variable tau, zero-length atoms, equal endpoints): pairwise overlap test on exact intervals of the active atoms per instance, and the extracted timeline must list exactly the covering atoms, at most one per segment.", "3.2, 4 (C04)"),
  "C05": ("Same histories, reusable-resource profile (capacities incl. 0, amounts at/above/below capacity, durations incl. 0): exact usage at every start pulse <= capacity; extracted timeline atoms and usage per segment recomputed.", "3.2, 4 (C05)"),
  "C06": ("Same histories, temporal profile (facts and goals on plain Interval/Impulse predicates, state variables, resources): origin <= start <= end <= horizon, duration == end-start >= 0, origin <= at <= horizon for every active atom.", "3.2, 4 (C06)"),
  "C17": ("Same histories, object profile (class hierarchies with constructors chaining to the super class, object fields, instances created before/after variables and across read() units, enum unions): each object/enum variable takes exactly one value inside the domain it was declared with, constructor arguments are read back from the fields, constraints through field access hold for the chosen instances.", "3.2, 4 (C17)"),
- "C18": ("Input faults enumerated: for every file of the corpus (the repository's examples up to a size limit plus three built-in token-rich programs) the stream feeding the real lexer/parser ends, or fails, at EVERY byte offset, and the full reader gets every prefix; seeded byte mutations on top. Outcome classification only: returned or std::exception = fine; signal, abort, failed assertion, alien exception or no answer within 2 s CPU = violation. Plus seeded valid programs (PLAN engine) and valid API histories (NET engine) on assert-enabled builds (thorough: ASan+UBSan) where any abnormal termination is a violation.", "3.5, 4 (C18)"),
- "C19": ("Discrete-event simulation of plan execution: the real executor ticks through solved generated plans while a seeded client delays starts/ends from inside the callbacks, reports failures and (quarantined, see KF-X2) adds late requirements; dispatch-history invariants (exactly-once start/end of active atoms, never early, delays honoured, time step, frozen past) are checked on the recorded callback history and the exact solution checker of PLAN re-validates the plan after every adaptation.", "3.3, 4 (C19)"),
- "C20": ("The PARALLELIZE build with the real thread pool runs under a scheduler that owns every pthread synchronisation point: seeded search over interleavings, pool sizes and legal-but-unusual behaviours (spurious wake-ups, late workers); every schedule must reproduce the observation log of the sequential build (verdicts, literal values, values and bounds after every call, set of recorded clauses); a vector-clock happens-before detector fed by compiler instrumentation reports unsynchronised accesses whether or not they collide; no runnable thread = lost wake-up / deadlock.", "3.4, 4 (C20)"),
+ "C18": ("Input faults enumerated: for every file of the corpus (the repository's examples up to a size limit plus three built-in token-rich programs) the stream feeding the real lexer/parser ends, or fails, at EVERY byte offset, and the full reader gets every prefix; seeded byte mutations on top. Outcome classification only: returned or std::exception = fine; signal, abort, failed assertion, alien exception or no answer within 2 s CPU = violation. Plus seeded valid programs (PLAN engine, borrowing the workload profiles of the other planner properties; the solver is torn down at the end; a run stuck inside read() is a hang) and valid API histories (NET engine) on assert-enabled builds (thorough: ASan+UBSan) where any abnormal termination is a violation.", "3.5, 4 (C18), 10.8, 10.11"),
+ "C19": ("Discrete-event simulation of plan execution: the real executor ticks through solved generated plans while a seeded client delays starts/ends from inside the callbacks, reports failures (also from adaptive scripts: delay an end, wait until that atom has ended, then report another atom as failed) and (opt-in) adds late requirements; dispatch-history invariants (exactly-once start/end of active atoms, never early, delays honoured, time step, frozen past) are checked on the recorded callback history and the exact solution checker of PLAN re-validates the plan after every adaptation.", "3.3, 4 (C19)"),
+ "C20": ("The PARALLELIZE build with the real thread pool runs under a scheduler that owns every pthread synchronisation point: seeded search over interleavings, pool sizes and legal-but-unusual behaviours (spurious wake-ups, late workers); every schedule must reproduce the observation log of the sequential build (verdicts, literal values, values and bounds after every call, set of recorded clauses); a vector-clock happens-before detector fed by compiler instrumentation reports unsynchronised accesses whether or not they collide; no runnable thread = lost wake-up / deadlock. A share of the schedules runs two caller threads at once, each with a network and pool of its own, on the same history: both must reproduce the sequential log.", "3.4, 4 (C20), 10.11"),
  "C14": ("Seeded object-variable histories (domains 1-5 over a shared pool, both creation forms, equalities between all pairs, assume/pop and sweeps): exactly-one, domain == not-excluded values, equality literal <=> same value, disjoint domains never equal; verdicts judged by z3.", "3.1, 4 (C14)"),
 }
 TECH = "deterministic simulation: seeded API-history + heap-layout search with reference-model oracles (z3 / Floyd-Warshall), ddmin-minimised replay files"
